@@ -194,6 +194,7 @@ class Pkg:
         self.site_kind = {}
         self.elem = Table(self, "elem")
         self.val = Table(self, "val")
+        self.unord = Table(self, "unord")  # list/iterator site -> element type of the set(s) whose iteration order it carries
         self.site_node = {}
         self.site_scope = {}
         self.changed = False
@@ -565,6 +566,20 @@ class Pkg:
                     if a[1] not in self.classes:
                         r = join(r, TOP)
         return r
+
+    def order_source(self, t):
+        """element type of the sets whose iteration order a value of type t carries (bottom: none)"""
+        r = BOT
+        for sid in self.sites(t):
+            if self.site_kind[sid] == "set":
+                r = join(r, self.elem.get(sid, BOT))
+            else:
+                r = join(r, self.unord.get(sid, BOT))
+        return r
+
+    def carry(self, sid, *types):
+        for t in types:
+            self.upd(self.unord, sid, self.order_source(t))
 
     def ret_of(self, fs):
         if fs.is_gen:
@@ -961,6 +976,7 @@ class Pkg:
             if m == "copy":
                 ns = self.new_site(n, "list", sc, "copy")
                 self.upd(self.elem, ns, self.elem.get(sid, BOT))
+                self.upd(self.unord, ns, self.unord.get(sid, BOT))
                 return self.site_ty(ns)
             if m in ("index", "count"):
                 return INT
@@ -1064,8 +1080,15 @@ class Pkg:
         if name in ("list", "sorted", "reversed", "deque"):
             sid = self.new_site(n, "list", sc)
             self.upd(self.elem, sid, self.elem_of(a0))
+            if name != "sorted":
+                self.carry(sid, a0)
             return self.site_ty(sid)
         if name == "tuple":
+            if self.order_source(a0):
+                sid = self.new_site(n, "list", sc, "tuple")  # a tuple in set order: tracked like a list
+                self.upd(self.elem, sid, self.elem_of(a0))
+                self.carry(sid, a0)
+                return self.site_ty(sid)
             return frozenset([("tupv", self.elem_of(a0))])
         if name in ("dict", "OrderedDict"):
             sid = self.new_site(n, "dict", sc)
@@ -1085,10 +1108,12 @@ class Pkg:
         if name == "enumerate":
             sid = self.new_site(n, "iter", sc)
             self.upd(self.elem, sid, tup(INT, self.elem_of(a0)))
+            self.carry(sid, a0)
             return self.site_ty(sid)
         if name == "zip":
             sid = self.new_site(n, "iter", sc)
             self.upd(self.elem, sid, tup(*[self.elem_of(p) for p in pos]) if pos else BOT)
+            self.carry(sid, *pos)
             return self.site_ty(sid)
         if name == "range":
             sid = self.new_site(n, "iter", sc)
@@ -1097,10 +1122,12 @@ class Pkg:
         if name in ("iter", "filter"):
             sid = self.new_site(n, "iter", sc)
             self.upd(self.elem, sid, self.elem_of(pos[-1] if pos else BOT))
+            self.carry(sid, pos[-1] if pos else BOT)
             return self.site_ty(sid)
         if name == "map":
             sid = self.new_site(n, "iter", sc)
             self.upd(self.elem, sid, TOP)
+            self.carry(sid, *pos[1:])
             return self.site_ty(sid)
         if name in ("len", "int", "abs", "sum", "ord", "id", "hash", "bool", "float", "isinstance", "issubclass",
                     "hasattr", "any", "all", "round", "callable"):
@@ -1175,6 +1202,7 @@ class Pkg:
                     if k == "list":
                         ns = self.new_site(n, "list", sc, "slice")  # a slice is a new list
                         self.upd(self.elem, ns, self.elem.get(a[1], BOT))
+                        self.upd(self.unord, ns, self.unord.get(a[1], BOT))
                         r = join(r, self.site_ty(ns))
                     else:
                         r = join(r, frozenset([a]))
@@ -1226,6 +1254,7 @@ class Pkg:
             ns = self.new_site(n, "list", sc, "op")
             for s in llists + rlists:
                 self.upd(self.elem, ns, self.elem.get(s, BOT))
+                self.upd(self.unord, ns, self.unord.get(s, BOT))
             out = join(out, self.site_ty(ns))
         if isinstance(op, ast.Mult) and (llists or rlists):
             out = join(out, frozenset(("site", s) for s in llists + rlists))
@@ -1305,15 +1334,20 @@ class Pkg:
         return self.site_ty(sid)
 
     def _comp_gens(self, gens, sc):
+        src = BOT
         for g in gens:
-            self.bind(g.target, self.elem_of(self.ev(g.iter, sc)), sc)
+            it = self.ev(g.iter, sc)
+            src = join(src, self.order_source(it))
+            self.bind(g.target, self.elem_of(it), sc)
             for c in g.ifs:
                 self.ev(c, sc)
+        return src
 
     def ev_ListComp(self, n, sc):
-        self._comp_gens(n.generators, sc)
+        src = self._comp_gens(n.generators, sc)
         sid = self.new_site(n, "list", sc)
         self.upd(self.elem, sid, self.ev(n.elt, sc))
+        self.upd(self.unord, sid, src)
         return self.site_ty(sid)
 
     def ev_SetComp(self, n, sc):
@@ -1323,9 +1357,10 @@ class Pkg:
         return self.site_ty(sid)
 
     def ev_GeneratorExp(self, n, sc):
-        self._comp_gens(n.generators, sc)
+        src = self._comp_gens(n.generators, sc)
         sid = self.new_site(n, "iter", sc)
         self.upd(self.elem, sid, self.ev(n.elt, sc))
+        self.upd(self.unord, sid, src)
         return self.site_ty(sid)
 
     def ev_DictComp(self, n, sc):
@@ -1359,16 +1394,30 @@ class Pkg:
         self.bind(n.target, t, sc)
         return t
 
+    def _yield_order(self, n, sc, fs):
+        """a yield inside a loop over a set (or over a sequence in set order): the generator carries that order"""
+        p = getattr(n, "_parent", None)
+        gsid = self.new_site(fs.node, "iter", fs, "gen")
+        while p is not None and p is not fs.node:
+            if isinstance(p, (ast.For, ast.AsyncFor)):
+                self.carry(gsid, self.ev(p.iter, sc))
+            p = getattr(p, "_parent", None)
+
     def ev_Yield(self, n, sc):
         fs = self._func_scope(sc)
         if n.value is not None and fs is not None:
             self.upd(self.yields, fs.id, self.ev(n.value, sc))
+        if fs is not None:
+            self._yield_order(n, sc, fs)
         return TOP
 
     def ev_YieldFrom(self, n, sc):
         fs = self._func_scope(sc)
         if fs is not None:
-            self.upd(self.yields, fs.id, self.elem_of(self.ev(n.value, sc)))
+            t = self.ev(n.value, sc)
+            self.upd(self.yields, fs.id, self.elem_of(t))
+            self.carry(self.new_site(fs.node, "iter", fs, "gen"), t)
+            self._yield_order(n, sc, fs)
         return TOP
 
     def ev_Await(self, n, sc):
@@ -2073,10 +2122,14 @@ class Classifier:
                     if isinstance(getattr(n, "ctx", None), (ast.Store, ast.Del)):
                         continue
                     t = pkg.ev(n, sc)
-                    if not pkg.sites(t, "set"):
+                    if not pkg.sites(t, "set") and not self.carriers(t):
                         continue
                     recs.append(self.record(n, sc, t))
         return recs
+
+    def carriers(self, t):
+        """list/iterator sites in t that carry the iteration order of a set"""
+        return [s for s in self.pkg.sites(t) if self.pkg.site_kind[s] != "set" and dict.get(self.pkg.unord, s)]
 
     def record(self, n, sc, t):
         pkg = self.pkg
@@ -2084,11 +2137,23 @@ class Classifier:
         r.node, r.scope = n, sc
         r.relpath, r.qualname, r.lineno = sc.relpath, sc.qualname, getattr(n, "lineno", 0)
         r.expr = norm_src(n)[:100]
-        r.kind, r.cats, et = pkg.set_kind(t)
+        seq = not pkg.sites(t, "set")
+        if seq:
+            et = joins(dict.get(pkg.unord, s, BOT) for s in self.carriers(t))
+            r.cats = pkg.categories(et)
+            r.kind = "nondet" if r.cats & {"obj", "str"} else ("int" if r.cats <= {"int"} else "unknown")
+        else:
+            r.kind, r.cats, et = pkg.set_kind(t)
         r.elem = show_ty(pkg, et)
         r.issues = []
         try:
-            v, why, construct = self.consumption(n, sc, False)
+            v, why, construct = self.consumption(n, sc, seq)
+            if seq and v in (SENS, UNDET):
+                org = sorted({"%s: %s" % (pkg.site_scope[s].qualname, norm_src(pkg.site_node[s])[:50]) for s in self.carriers(t)
+                              if not isinstance(pkg.site_node[s], (ast.FunctionDef, ast.AsyncFunctionDef))}
+                             | {"generator %s" % pkg.site_scope[s].qualname for s in self.carriers(t)
+                                if isinstance(pkg.site_node[s], (ast.FunctionDef, ast.AsyncFunctionDef))})
+                why = "sequence in set-iteration order (built in %s); %s" % ("; ".join(org[:3]), why)
         except RecursionError:
             v, why, construct = UNDET, "classification recursion too deep", n
         fsc = self.func_scope(sc)
@@ -2099,6 +2164,76 @@ class Classifier:
         return r
 
     # ------------------------------------------------------------- key functions
+    def module_value(self, name, relpath, _d=0):
+        """the expression a module-level name is bound to (following package imports), with its module"""
+        if _d > 4:
+            return None, None
+        tree = self.pkg.trees.get(relpath)
+        if tree is None:
+            return None, None
+        val = None
+        n_assign = 0
+        for st in tree.body:
+            if isinstance(st, ast.Assign) and any(isinstance(t, ast.Name) and t.id == name for t in st.targets):
+                val = st.value
+                n_assign += 1
+            elif isinstance(st, ast.AnnAssign) and isinstance(st.target, ast.Name) and st.target.id == name and st.value is not None:
+                val = st.value
+                n_assign += 1
+        if n_assign == 1:
+            return val, relpath
+        if n_assign > 1:
+            return None, None
+        imp = self.pkg.imports.get(relpath, {}).get(name)
+        if imp and imp[1] and imp[0] in self.pkg.by_dotted:
+            return self.module_value(imp[1], self.pkg.by_dotted[imp[0]], _d + 1)
+        return None, None
+
+    def key_body(self, key, sc, _d=0):
+        """resolve a key= expression to (parameter name, body expression) | ('attrgetter', [names]) | ('builtin', name)"""
+        if _d > 4:
+            return None
+        if isinstance(key, ast.Lambda) and len(key.args.args) == 1:
+            return ("fn", key.args.args[0].arg, key.body)
+        if isinstance(key, ast.Call):
+            f = key.func
+            nm = f.id if isinstance(f, ast.Name) else (f.attr if isinstance(f, ast.Attribute) else None)
+            if nm == "attrgetter":
+                return ("attrgetter", [a.value for a in key.args if isinstance(a, ast.Constant)])
+            if nm == "itemgetter":
+                return None
+            return None
+        if isinstance(key, ast.Name):
+            t = self.pkg.lookup(key.id, sc)
+            for atom in t:
+                if isinstance(atom, tuple) and atom[0] == "func":
+                    fs = self.pkg.scopes[atom[1]]
+                    if fs.kind == "lambda":
+                        return self.key_body(fs.node, sc, _d + 1)
+                    ps = list(fs.params)
+                    body = [st for st in fs.node.body if not (isinstance(st, ast.Expr) and isinstance(st.value, ast.Constant))]
+                    if len(ps) == 1 and len(body) == 1 and isinstance(body[0], ast.Return) and body[0].value is not None:
+                        return ("fn", ps[0], body[0].value)
+                    return None
+            if t == TOP and key.id in ("id", "hash", "repr", "str", "int", "len"):
+                fsc = self.func_scope(sc)
+                if fsc is None or key.id not in fsc.bound:
+                    ms = self.pkg._module_scope[sc.relpath]
+                    if key.id not in ms.bound:
+                        return ("builtin", key.id)
+            # a local or module-level name bound once to a key function
+            fsc = self.func_scope(sc)
+            if fsc is not None and key.id in fsc.bound:
+                vals = [st.value for st in ast.walk(fsc.node) if isinstance(st, ast.Assign)
+                        and any(isinstance(t2, ast.Name) and t2.id == key.id for t2 in st.targets)]
+                if len(vals) == 1:
+                    return self.key_body(vals[0], sc, _d + 1)
+                return None
+            val, rp = self.module_value(key.id, sc.relpath)
+            if val is not None:
+                return self.key_body(val, self.pkg._module_scope[rp], _d + 1)
+        return None
+
     def key_verdict(self, call, sc, elem_cats):
         """sorted/min/max(..., key=K): (ok, text).  ok True: K is a total, injective key (by a table entry);
         False: K depends on addresses/hashes; None: not recognised"""
@@ -2113,38 +2248,42 @@ class Classifier:
             if not elem_cats:
                 return True, "empty"
             return None, "%s() without key over elements that have no total order" % fname
-        if isinstance(key, ast.Name):
-            if key.id in ("id", "hash", "repr"):
-                return False, "key=%s orders by address/hash" % key.id
-            if key.id in ("str", "int", "len") and elem_cats <= {"int", "str"}:
-                return True, "key=%s on scalar elements" % key.id
-            return None, "key=%s not recognised" % key.id
-        if isinstance(key, ast.Call) and isinstance(key.func, (ast.Name, ast.Attribute)) and (
-                (isinstance(key.func, ast.Name) and key.func.id == "attrgetter") or (isinstance(key.func, ast.Attribute) and key.func.attr == "attrgetter")):
-            names = [a.value for a in key.args if isinstance(a, ast.Constant)]
-            if any(a in INJECTIVE_ATTRS for a in names):
-                return True, "key=attrgetter(%s): %s" % (",".join(map(str, names)), INJECTIVE_ATTRS[[a for a in names if a in INJECTIVE_ATTRS][0]])
-            return None, "key=attrgetter(%s) not known to be injective" % names
-        if isinstance(key, ast.Lambda) and len(key.args.args) == 1:
-            p = key.args.args[0].arg
-            bad = [c for c in ast.walk(key.body) if isinstance(c, ast.Call) and isinstance(c.func, ast.Name) and c.func.id in ("id", "hash", "repr")]
-            if bad:
-                return False, "key calls %s(): orders by address/hash" % bad[0].func.id
-            comps = key.body.elts if isinstance(key.body, ast.Tuple) else [key.body]
-            inj = None
-            for c in comps:
-                while isinstance(c, ast.Call) and isinstance(c.func, ast.Name) and c.func.id in ("str", "int", "abs") and len(c.args) == 1:
-                    c = c.args[0]
-                if isinstance(c, ast.Attribute) and isinstance(c.value, ast.Name) and c.value.id == p and c.attr in INJECTIVE_ATTRS:
-                    inj = c.attr
-                if isinstance(c, ast.Name) and c.id == p and elem_cats <= {"int", "str"}:
-                    inj = "<element>"
-            if inj == "<element>":
-                return True, "key is the (scalar) element itself"
-            if inj:
-                return True, "key .%s: %s" % (inj, INJECTIVE_ATTRS[inj])
-            return None, "key %s not known to be injective" % norm_src(key)[:60]
-        return None, "key %s not recognised" % norm_src(key)[:60]
+        kb = self.key_body(key, sc)
+        ksrc = norm_src(key)[:60]
+        if kb is None:
+            return None, "key %s not recognised" % ksrc
+        if kb[0] == "builtin":
+            if kb[1] in ("id", "hash", "repr"):
+                return False, "key=%s orders by address/hash" % kb[1]
+            if elem_cats <= {"int", "str"}:
+                return True, "key=%s on scalar elements" % kb[1]
+            return None, "key=%s on elements that are not scalars" % kb[1]
+        if kb[0] == "attrgetter":
+            hit = [a for a in kb[1] if a in INJECTIVE_ATTRS]
+            if hit:
+                return True, "key %s = attrgetter(%s): %s" % (ksrc, ", ".join(map(repr, kb[1])), INJECTIVE_ATTRS[hit[0]])
+            return None, "key attrgetter(%s) not known to be injective" % kb[1]
+        _, p, body = kb
+        bad = [c for c in ast.walk(body) if isinstance(c, ast.Call) and isinstance(c.func, ast.Name) and c.func.id in ("id", "hash", "repr")]
+        if bad:
+            return False, "key %s calls %s(): orders by address/hash" % (ksrc, bad[0].func.id)
+        comps = body.elts if isinstance(body, ast.Tuple) else [body]
+        inj = None
+        for c in comps:
+            while isinstance(c, ast.Call) and isinstance(c.func, ast.Name) and c.func.id in ("str", "int", "abs") and len(c.args) == 1:
+                c = c.args[0]
+            if isinstance(c, ast.Call) and isinstance(c.func, ast.Name) and c.func.id == "getattr" and len(c.args) >= 2 \
+                    and isinstance(c.args[0], ast.Name) and c.args[0].id == p and isinstance(c.args[1], ast.Constant) and len(c.args) == 2:
+                c = ast.Attribute(value=c.args[0], attr=c.args[1].value, ctx=ast.Load())
+            if isinstance(c, ast.Attribute) and isinstance(c.value, ast.Name) and c.value.id == p and c.attr in INJECTIVE_ATTRS:
+                inj = c.attr
+            if isinstance(c, ast.Name) and c.id == p and elem_cats <= {"int", "str"}:
+                inj = inj or "<element>"
+        if inj == "<element>":
+            return True, "key is the (scalar) element itself"
+        if inj:
+            return True, "key %s -> .%s: %s" % (ksrc, inj, INJECTIVE_ATTRS[inj])
+        return None, "key %s not known to be injective" % ksrc
 
     # ------------------------------------------------------------ consumption
     def elem_cats(self, node, sc):
@@ -2227,8 +2366,6 @@ class Classifier:
                     return SENS, "dict insertion order follows the set order", p
             callees = pkg.callees(p, sc)
             if callees:
-                if seq:
-                    return SENS, "a sequence in set order is passed to %s()" % (fn.attr if isinstance(fn, ast.Attribute) else getattr(fn, "id", "?")), p
                 return FLOWS, "passed to %s (parameter types are tracked)" % callees[0][0].qualname, p
             if isinstance(fn, ast.Attribute) and fn.attr in ("append", "add", "setdefault", "get", "insert") and not seq:
                 return FLOWS, "the set itself is stored in a container (element types are tracked)", p
@@ -2333,12 +2470,16 @@ class Classifier:
             tg = p.targets if isinstance(p, ast.Assign) else [p.target]
             if any(isinstance(t, (ast.Tuple, ast.List)) for t in tg):
                 return SENS, "unpacking assigns the elements in iteration order", p
-            if seq:
+            if seq and not all(isinstance(t, ast.Name) and t.id in getattr(self.func_scope(sc), "bound", ()) for t in tg):
                 return SENS, "the order-dependent sequence is stored in %s" % ", ".join(norm_src(t)[:40] for t in tg), p
             return FLOWS, "bound to %s (types are tracked)" % ", ".join(norm_src(t)[:40] for t in tg), p
         if isinstance(p, ast.Return):
             if seq:
-                return SENS, "the order-dependent sequence is returned", p
+                fs = self.func_scope(sc)
+                nm = fs.node.name if fs is not None else None
+                if nm and nm in pkg.called_names and nm not in pkg.value_names and not (nm.startswith("__") and nm.endswith("__")):
+                    return FLOWS, "a sequence in set order is returned to the callers inside the package (its uses are classified there)", p
+                return SENS, "the order-dependent sequence is returned to callers outside the analysed package", p
             return FLOWS, "returned (return types are tracked)", p
         if isinstance(p, (ast.Yield, ast.YieldFrom)):
             if seq or isinstance(p, ast.YieldFrom):
